@@ -92,6 +92,7 @@ type VC struct {
 	errGlobals map[string]bool
 	muted     bool // inside a Go function evaluated for a contract: no obligations
 	curSt     *State
+	curPos    string
 	sl        *slicer
 	usedLemmas []string
 	heapReads map[string]Sort // collector of heap names read (recursive spec functions)
@@ -173,7 +174,7 @@ func (vc *VC) cover(site string, guard Term) {
 	if n := vc.kindCount["cover:"+site]; n > 1 {
 		name = fmt.Sprintf("%s#%d", name, n)
 	}
-	vc.obls = append(vc.obls, &Obligation{Name: name, Func: vc.fname, Kind: "cover", Label: "vacuity", PrefixLen: len(vc.lines), Guard: guard, Goal: tFalse, IsCover: true})
+	vc.obls = append(vc.obls, &Obligation{Name: name, Func: vc.fname, Kind: "cover", Label: "vacuity", PrefixLen: len(vc.lines), Guard: guard, Goal: tFalse, IsCover: true, Src: "reachability at " + vc.curPos})
 }
 
 // ------------------------------------------------------------------- sorts
@@ -384,6 +385,10 @@ func (vc *VC) havocAllHeaps(st *State) {
 			// declared immutable: unknown callees are assumed not to write
 			// fields of this type (listed assumption)
 			vc.assumes["objects of the types declared immutable in the contract files are not written by unknown (dynamic / interface / external) callees"] = true
+			continue
+		}
+		if vc.specs.isPrivateHeap(n) {
+			vc.assumes["fields of the struct types declared private in the contract files are written only by functions of their own package (unknown callees do not call back into it)"] = true
 			continue
 		}
 		vc.havocHeap(st, n)
